@@ -962,7 +962,10 @@ func flush(cells []cell) string {
 	for i, c := range cells {
 		if !c.isLit {
 			if atLineStart {
-				return "U13-flush-heredoc-line-starts-with-sequence"
+				// a line that starts with a sequence has no leading literal, hence zero
+				// leading spaces: nothing can be trimmed from any line
+				counts = append(counts, 0)
+				atLineStart = false
 			}
 			continue
 		}
